@@ -363,6 +363,10 @@ def run(ctx, report):
     from .c06 import mem_read_fold_rule
     mem_read_fold_rule(R9, ea9, ea9.methods('eval_abs'))
 
+    R10 = report.rule('C07.D10', 'addresses are widened to 32 bits where they enter the memory model (shared with C06.D9): instructions under the 16-bit address size can be emulated', floor=3)
+    from .c06 import addr_width_rule
+    addr_width_rule(R10, ea, methods)
+
     R3 = report.rule('C07.D3', 'evaluation never short-cuts on a flag that is not machine state', floor=1)
     ee = methods.get('eval_expr')
     if ee is None:
@@ -549,4 +553,5 @@ MUTANTS = [
      '                    del(self.pool[x])\n                for xx, yy in diff_mem:\n                    self.pool[xx] = yy\n', 'C07.D4'),
     ('instr-mod-late', 'miasmx/expression/expression_eval_abstract.py',
      '        tmp_ops = self.get_instr_mod(exprs)\n        mem_dst = []\n', '        mem_dst = []\n        del self.pool[exprs[0].dst]\n        tmp_ops = self.get_instr_mod(exprs)\n', 'C07.D1'),
+    ('read-addr-not-widened', 'miasmx/expression/expression_eval_abstract.py', "        a_val = self.mem_addr(a_val)\n", "", 'C07.D10'),
 ]
